@@ -481,6 +481,11 @@ func (c *Client) Mail(from string, opts *MailOptions) error {
 				// RFC 4954 section 5: no identity is written as "<>"
 				sb.WriteString(" AUTH=<>")
 			} else {
+				// Like ENVID and an rfc822 ORCPT: xtext is defined on
+				// US-ASCII, anything else would arrive as something else.
+				if !isPrintableASCII(*opts.Auth) {
+					return errors.New("smtp: Malformed AUTH parameter value")
+				}
 				fmt.Fprintf(&sb, " AUTH=%s", encodeXtext(*opts.Auth))
 			}
 		}
